@@ -24,7 +24,7 @@ RULE = ("a case is a history of register / call_when_ready / "
 ASSUMPTIONS = ["re-registering an already registered name is not exercised",
                "concurrent quit() calls from several OS threads are outside "
                "the statement"]
-REQUIRED = ["waiters_fired", "histories_with_very_many_components", "dependency_handlers_that_are_not_methods", "sinks_that_are_modules", "fired_on_later_register", "fired_immediately",
+REQUIRED = ["waiters_fired", "registrations_under_a_given_name_of_an_object_with_a_core_name", "histories_with_very_many_components", "dependency_handlers_that_are_not_methods", "sinks_that_are_modules", "fired_on_later_register", "fired_immediately",
             "chained_register", "callback_failed", "ltd_wired", "ltd_events",
             "lifecycles", "up_deferred", "quits", "quits_during_startup",
             "registrations_by_class_or_core_name", "rendezvous_histories_that_go_up",
@@ -180,7 +180,14 @@ class Rdv (object):
       self.rep.count("falsy_components")
     else:
       obj = self.Comp() if kind == "events" else self.Plain()
-    variant = (len(self.registered) + len(name) + self.case.get("rv", 0)) % 4
+    variant = (len(self.registered) + len(name) + self.case.get("rv", 0)) % 5
+    if variant == 4:
+      # an object written for registerNew (it carries a _core_name of its
+      # own) registered under a name the caller chooses: the given name counts
+      base = type(obj)
+      obj = type("Named", (base,), {"_core_name": "some_other_name_%d" % len(self.registered)})()
+      self.rep.count("registrations_under_a_given_name_of_an_object_with_a_core_name")
+      variant = 0
     if variant in (1, 2, 3):
       # register(obj) names the component after the object's _core_name or
       # its class; registerNew(cls) creates the object itself
